@@ -3,6 +3,9 @@
 package conf
 
 import (
+	"encoding/json"
+	"os"
+	"path/filepath"
 	"fmt"
 	"regexp"
 	"strings"
@@ -86,7 +89,29 @@ func TestVerifC06(t *testing.T) {
 			}
 		}
 	}
+	// the name of a path configuration is its (validated) key: a "name" setting inside the entry must not replace it,
+	// static paths are created with that name at start-up
+	dir := t.TempDir()
+	for hi, hostile := range append(append([]string(nil), c06Hostile...), "other", "../../outside", "cam/../../x") {
+		for _, key := range []string{"cam", "~^live/(.+)$", "all_others"} {
+			hj, _ := json.Marshal(hostile)
+			kj, _ := json.Marshal(key)
+			cf := filepath.Join(dir, fmt.Sprintf("c%d.yml", hi))
+			os.WriteFile(cf, []byte(fmt.Sprintf("paths:\n  %s:\n    name: %s\n    record: yes\n", kj, hj)), 0o644) //nolint:errcheck
+			c, _, err := Load(cf, nil, nil)
+			r.Eval(fmt.Sprintf("name-setting|%s|%q", key, hostile))
+			if err != nil {
+				r.Count("configurations_with_a_name_setting_rejected", 1)
+				continue
+			}
+			for k, p := range c.Paths {
+				if p.Name != k {
+					r.Violation("configuration-name-differs-from-key", fmt.Sprintf("configuration entry %q with the setting name: %q was loaded as a path configuration named %q (the key is what was validated)", k, hostile, p.Name), nil)
+				}
+			}
+		}
+	}
 	r.Count("names_accepted", int64(accepted))
 	r.Count("names_rejected", int64(rejected))
-	r.Finish("conf.FindPathConf (the function every publish / read / playback / recordings request resolves its path name with) over generated configuration sets (static names; regular-expression keys incl. ones that match dot segments; all / all_others) and requested names: hostile list (dot segments, encoded and unicode dots, slashes, NUL, backslashes, regex characters, very long), generated names, the configuration keys themselves with and without '~', keys with traversal suffixes / prefixes. Oracle: accepted => the harness' own byte-loop predicate of a valid path name holds. non-trivial = distinct (configuration set, name)")
+	r.Finish("conf.FindPathConf (the function every publish / read / playback / recordings request resolves its path name with) over generated configuration sets (static names; regular-expression keys incl. ones that match dot segments; all / all_others) and requested names: hostile list (dot segments, encoded and unicode dots, slashes, NUL, backslashes, regex characters, very long), generated names, the configuration keys themselves with and without '~', keys with traversal suffixes / prefixes. Oracle: accepted => the harness' own byte-loop predicate of a valid path name holds. Plus: configurations loaded through conf.Load whose entries carry a hostile 'name' setting: the loaded path configuration is named by its key. non-trivial = distinct (configuration set, name)")
 }
